@@ -65,6 +65,12 @@ def rand_matrix(rng, n, kind):
     if kind == 'diag_dominant':
         return [[(1 if rng.random() < 0.8 else rng.choice(PALETTE)) if i == j else (rng.choice(PALETTE) if rng.random() < 0.4 else 0)
                  for j in range(n)] for i in range(n)]
+    if kind == 'fine':
+        # finely graded credits: assignments that differ by less than 0.01 per box must still be told apart
+        base = rng.choice([0.33, 0.5, 0.66])
+        return [[round(base + rng.randint(-9, 9) * 0.001, 3) for _ in range(n)] for _ in range(n)]
+    if kind == 'float':
+        return [[round(rng.random(), 4) for _ in range(n)] for _ in range(n)]
     return [[rng.choice(PALETTE) for _ in range(n)] for _ in range(n)]
 
 
@@ -180,7 +186,7 @@ def run_flat(ctx):
         nlists = rng.choice([1, 1, 2, 3])
         lists = []
         for li in range(nlists):
-            C = rand_matrix(rng, n, rng.choice(['identity', 'diag_dominant', 'random', 'random']))
+            C = rand_matrix(rng, n, rng.choice(['identity', 'diag_dominant', 'random', 'random', 'fine', 'float']))
             lists.append(make_answers(rng, n, C, 'L%d' % li))
         table = {}
         for _, t, _ in lists:
